@@ -160,10 +160,14 @@ def c02_r6(ctx):
     # ---- demux thread
     dm = facts.one(r'network::sync::demultiplexer::demux_thread$')
     sd = q.sym(facts, dm)
-    snd = [(bi, t) for bi, t in dm.calls() if (t['callee'].get('path') or '').endswith('channel::Sender::<T>::send')]
+    snd = [(bi, t) for bi, t in dm.calls() if re.search(r'channel::Sender::<T>::\w+$', t['callee'].get('path') or '') and len(t['args']) == 2]
     if len(snd) != 1:
-        raise AnchorMissing('demux_thread must forward with exactly one Sender::send (found %d)' % len(snd))
+        raise AnchorMissing('demux_thread must forward with exactly one call on the endpoint\'s channel::Sender (found %d)' % len(snd))
     bi, t = snd[0]
+    if not t['callee']['path'].endswith('::send'):
+        ctx.viol('%s|lossy-forward' % dm.path, t['at'],
+                 'demux_thread forwards a received message with `%s` instead of the blocking `send`: when the bounded channel of '
+                 'the receiving replica is full the message is dropped' % t['callee']['path'].rsplit('::', 1)[1], None)
     recv_ = render(strip(sd.operand(t['args'][0])))
     msg = render(strip(sd.operand(t['args'][1])))
     ctx.inst('demux_thread|send', {'sender looked up by': recv_[-90:], 'message': msg[-60:]})
@@ -240,3 +244,50 @@ def c02_r7(ctx):
     ctx.inst('get_senders|endpoints', {'ReceiverEndpoint::new args': eps})
     if not eps or not all(b.endswith('coord.block_id') for a, b in eps):
         ctx.viol('%s|endpoint' % gs.path, gs.at, 'get_senders builds receiver endpoints whose previous block is not the sender\'s own block (%s)' % eps, None)
+
+
+LOSSY_SEND = re.compile(r'^(flume|std::sync::mpsc|crossbeam_channel)::\w*Sender(::<[^>]*>)?::(try_send|send_timeout|send_deadline|try_send_timeout)$')
+ANY_SEND = re.compile(r'^(flume|std::sync::mpsc|crossbeam_channel)::\w*Sender(::<[^>]*>)?::\w*send\w*$')
+
+
+@rule('C02', 'R8', 'every hop of a link hands its message over with a blocking send: no try_send / send_timeout anywhere on the path')
+def c02_r8(ctx):
+    """A bounded channel that is full makes a blocking send wait (back-pressure); a non-blocking or timed send returns the
+    message to the caller instead, and every caller on the link path either unwraps or logs: the message would be lost."""
+    facts = ctx.facts
+    lossy = {}     # lib fn path -> reason (calls a lossy primitive, directly or through a lib wrapper)
+    prim = 0
+    for f in facts.lib_fns():
+        for bi, t in f.calls():
+            p = t['callee'].get('path') or ''
+            if ANY_SEND.match(p):
+                prim += 1
+                ctx.inst('%s|%s' % (f.path, p.rsplit('::', 1)[1]), {'at': t['at'], 'primitive': p, 'blocking': not LOSSY_SEND.match(p)})
+                if LOSSY_SEND.match(p):
+                    lossy[f.path] = (t['at'], p)
+    if prim == 0:
+        raise AnchorMissing('no call of a channel send primitive (flume::Sender::send) found in the crate')
+    link_mod = re.compile(r'^<?(renoir::network::|renoir::block::|renoir::operator::end::|renoir::operator::start::|renoir::operator::iteration::)')
+
+    def callers_of(fp):
+        return sorted({g.path for g in facts.lib_fns() for _, t in g.calls()
+                       if (t['callee'].get('resolved') or t['callee'].get('path') or '') == fp})
+    for fp, (at, p) in sorted(lossy.items()):
+        f = facts.fn(fp)
+        # the function itself is a hop of a link, or it is a wrapper that a hop calls (followed through wrappers)
+        seen, todo, hops = {fp}, [fp], []
+        while todo:
+            x = todo.pop()
+            if link_mod.match(x):
+                hops.append(x)
+                continue
+            for c in callers_of(x):
+                if c not in seen:
+                    seen.add(c)
+                    todo.append(c)
+        if not hops:
+            ctx.note('%s uses %s but no link hop (network, block, start/end, iteration feedback) reaches it' % (fp, p))
+            continue
+        ctx.viol('%s|lossy-send|%s' % (fp, p.rsplit('::', 1)[1]), at,
+                 '%s hands a message to a channel with `%s`, which gives the message back instead of waiting when the channel is full; '
+                 'link hops that use it: %s. Links rely on blocking sends for loss-free back-pressure' % (f.name if f else fp, p, sorted(hops)), None)
